@@ -208,6 +208,7 @@ pub fn check_est_net(ctx: &mut Ctx, t: usize, et: &EstTimeNet, links: &[Link], o
             sg.insert("on_alternate_branch".into(), on_alt_branch(v, i).into());
             sg.insert("value".into(), e.time_sched.value.into());
             sg.insert("is_root_node".into(), (i <= 1).into());
+            sg.insert("root_time_sched".into(), v[0].time_sched.value.into());
             sg.insert("graph_has_alternates".into(), v.iter().any(|x| x.idx_next_alt != 0).into());
             sg.insert("max_time_sched".into(), v.iter().map(|x| x.time_sched.value).filter(|x| x.is_finite()).fold(0.0, f64::max).into());
             let _ = reached_via_alt;
